@@ -323,3 +323,49 @@ package badger
 //@   assert[lsm-item] before return : called(SafeCopy#1) ==> item.version == ret(get#1).Version && item.meta == ret(get#1).Meta && item.userMeta == ret(get#1).UserMeta && item.expiresAt == ret(get#1).ExpiresAt && item.vptr == ret(SafeCopy#1)
 //@   assert[lsm-value] before call SafeCopy : bytes(arg1) == bytes(ret(get#1).Value)
 //@   assigns everything
+
+// ---- managed mode (C36) ----
+
+//@ func (*DB).NewTransactionAt
+//@   props C36
+//@   requires db.opt.managedTxns && db.orc != nil
+//@   ensures[read-ts] result != nil && result.readTs == readTs
+//@   ensures[update] result.update == (update && !db.opt.ReadOnly) && result.db == db && !result.discarded
+//@   assigns held(db.orc.Mutex), db.orc.readMark.lastIndex.v, db.orc.txnMark.doneUntil.v
+
+//@ func (*oracle).setDiscardTs
+//@   props C36 C13
+//@   requires o.readMark != nil && o.isManaged && o.lastCleanupTs <= o.discardTs
+//@   domain ts >= o.lastCleanupTs
+//@   ensures[set] o.discardTs == ts
+//@   ensures[unlocked] !held(o.Mutex)
+//@   assert[locked] before call cleanupCommittedTransactions : held(o.Mutex) && o.discardTs == ts
+//@   assigns held(o.Mutex), o.discardTs, o.lastCleanupTs, o.committedTxns, o.committedTxns[0:len(o.committedTxns)]
+
+//@ func (*DB).SetDiscardTs
+//@   props C36
+//@   light
+//@   assert[forward] before call setDiscardTs : db.opt.managedTxns && arg0 == db.orc && arg1 == ts
+
+//@ func (*Txn).CommitAt
+//@   props C36
+//@   light
+//@   assert[commit-ts-commit] before call Commit : txn.commitTs == commitTs && arg0 == txn
+//@   assert[commit-ts-with] before call CommitWith : txn.commitTs == commitTs && arg0 == txn
+
+// ---- commit (C03, C36, C10) ----
+
+// The write-channel lock is held from before the commit timestamp is taken until the request
+// is on the write channel, so channel order equals timestamp order; a conflicting transaction
+// sends nothing; the end-of-transaction entry carries exactly the commit timestamp; when the
+// request cannot be sent the commit timestamp is marked done and the error is returned.
+//@ func (*Txn).commitAndSend
+//@   props C03 C36
+//@   light
+//@   assert[lock-before-ts] before call newCommitTs : held(txn.db.orc.writeChLock) && arg0 == txn.db.orc && arg1 == txn
+//@   assert[lock-until-sent] before call sendToWriteCh : held(txn.db.orc.writeChLock) && !ret1(newCommitTs#1)
+//@   assert[fin-key] before call KeyWithTs : arg0 == txnKey && arg1 == ret0(newCommitTs#1)
+//@   assert[fin-value] before call FormatUint : arg0 == ret0(newCommitTs#1) && arg1 == 10
+//@   assert[done-on-error] before call doneCommit : arg1 == ret0(newCommitTs#1)
+//@   assert[conflict-sends-nothing] before return : ret1(newCommitTs#1) ==> result1 == ErrConflict && !called(sendToWriteCh#1)
+//@   assert[send-error-returned] before return : called(sendToWriteCh#1) && ret1(sendToWriteCh#1) != nil ==> called(doneCommit#1) && result1 == ret1(sendToWriteCh#1)
